@@ -41,7 +41,7 @@ def plan(tier, seed):
 def floors(tier):
     return {"distinct_nontrivial": 500, "cls:kind:single": 600, "cls:kind:multi": 600, "cls:kind:rule": 300,
             "cls:kind:predform": 300, "cls:kind:flatten": 300, "cls:kind:concat": 200, "cls:falsy_in_result": 800,
-            "cls:falsy_selected_output": 100, "cls:falsy_constructor_argument": 150, "cls:falsy_field_constraint": 150,
+            "cls:falsy_selected_output": 100, "cls:one_expression_object_as_value_and_condition_in_one_query": 100, "cls:falsy_constructor_argument": 150, "cls:falsy_field_constraint": 150,
             "cls:falsy_flattened_element": 150, "cls:condition_position_falsy": 80,
             "cls:kind:shared": 200, "cls:shared_expression_condition_and_value": 50}
 
@@ -51,7 +51,9 @@ def cases(spec, ctx):
         rng = ctx.rng(spec["sub"], i)
         kind = rng.choice(["single", "single", "multi", "multi", "rule", "predform", "flatten", "concat", "shared"])
         if kind == "shared":
-            uses = [rng.choice(["condition", "operand_eq", "operand_in", "selected", "selected"]) for _ in range(rng.randint(2, 3))]
+            uses = [rng.choice(["condition", "operand_eq", "operand_in", "selected", "selected", "value_then_condition",
+                                "condition_then_value", "value_or_condition", "selected_and_condition"])
+                    for _ in range(rng.randint(2, 3))]
             order = list(range(len(uses))) * 2
             rng.shuffle(order)
             yield {"kind": kind, "world": D.random_world(rng, np_=(3, 6), nq=(1, 2), falsy=True),
@@ -305,7 +307,7 @@ def _check_concat(case, ctx):
 
 def _check_shared(case, ctx):
     """ONE mapped expression object used by several queries in different positions (condition / operand / selected output)"""
-    from entity_query_language import symbolic_mode, an, entity, set_of, let, in_
+    from entity_query_language import symbolic_mode, an, entity, set_of, let, in_, or_
     world = D.build_world(case["world"])
     ps = world["P"]
     m = H.labels_of(world)
@@ -321,6 +323,15 @@ def _check_shared(case, ctx):
                 queries.append(an(entity(x, val == lit)))
             elif u == "operand_in":
                 queries.append(an(entity(x, in_(val, (0, None, "", lit)))))
+            # the same object twice in ONE query (x_attr = x.attr; ... x_attr != lit, x_attr ...): value and condition position
+            elif u == "value_then_condition":
+                queries.append(an(entity(x, val != lit, val)))
+            elif u == "condition_then_value":
+                queries.append(an(entity(x, val, val != lit)))
+            elif u == "value_or_condition":
+                queries.append(an(entity(x, or_(val == lit, val))))
+            elif u == "selected_and_condition":
+                queries.append(an(set_of([x, val], val)))
             else:
                 queries.append(an(set_of([x, val])))
 
@@ -331,11 +342,19 @@ def _check_shared(case, ctx):
             return [m[id(o)] for o in ps if getattr(o, attr) == lit]
         if u == "operand_in":
             return [m[id(o)] for o in ps if getattr(o, attr) in (0, None, "", lit)]
+        if u in ("value_then_condition", "condition_then_value"):
+            return [m[id(o)] for o in ps if getattr(o, attr) != lit and getattr(o, attr)]
+        if u == "value_or_condition":
+            return [m[id(o)] for o in ps if getattr(o, attr) == lit or getattr(o, attr)]
+        if u == "selected_and_condition":
+            return [(m[id(o)], repr(getattr(o, attr))) for o in ps if getattr(o, attr)]
         return [(m[id(o)], repr(getattr(o, attr))) for o in ps]
     if any(_is_falsy(getattr(o, attr)) for o in ps):
         ctx.cls("cls:falsy_in_result")
         if "selected" in case["uses"]:
             ctx.cls("cls:falsy_selected_output")
+        if any("_" in u and "condition" in u for u in case["uses"]):
+            ctx.cls("cls:one_expression_object_as_value_and_condition_in_one_query")
         if "condition" in case["uses"] and len(set(case["uses"])) > 1:
             ctx.cls("cls:shared_expression_condition_and_value")
             ctx.nontrivial()
@@ -343,7 +362,7 @@ def _check_shared(case, ctx):
     for qi in case["eval_order"]:
         u = case["uses"][qi]
         rows = list(queries[qi].evaluate())
-        got = [(H.lab(m, r[x]), repr(r[val])) for r in rows] if u == "selected" else [H.lab(m, r) for r in rows]
+        got = [(H.lab(m, r[x]), repr(r[val])) for r in rows] if u in ("selected", "selected_and_condition") else [H.lab(m, r) for r in rows]
         log.append([qi, u, len(got)])
         if got != expect(u):
             ctx.fail("SHARED_EXPRESSION:" + u, {"attribute": attr, "uses": case["uses"], "evaluated": log, "expected": expect(u), "observed": got})
